@@ -515,7 +515,6 @@ impl<'m> MCTPSMBusContext<'m> {
                     let len;
 
                     match header.command_code().into() {
-                        CommandCode::Reserved => unreachable!(),
                         CommandCode::SetEndpointID => {
                             if payload[0] == MCTPSetEndpointIDOperations::SetEID as u8
                                 || payload[0] == MCTPSetEndpointIDOperations::ForceEID as u8
@@ -662,21 +661,24 @@ impl<'m> MCTPSMBusContext<'m> {
                                 unreachable!()
                             };
                         }
-                        CommandCode::ResolveEndpointID => unimplemented!(),
-                        CommandCode::AllocateEndpointIDs => unimplemented!(),
-                        CommandCode::RoutingInformationUpdate => unimplemented!(),
-                        CommandCode::GetRoutingTableEntries => unimplemented!(),
-                        CommandCode::PrepareForEndpointDiscovery => unimplemented!(),
-                        CommandCode::EndpointDiscovery => unimplemented!(),
-                        CommandCode::DiscoveryNotify => unimplemented!(),
-                        CommandCode::GetNetworkID => unimplemented!(),
-                        CommandCode::QueryHop => unimplemented!(),
-                        CommandCode::ResolveUUID => unimplemented!(),
-                        CommandCode::QueryRateLimit => unimplemented!(),
-                        CommandCode::RequestTXRateLimit => unimplemented!(),
-                        CommandCode::UpdateRateLimit => unimplemented!(),
-                        CommandCode::QuerySupportedInterfaces => unimplemented!(),
-                        _ => unimplemented!(),
+                        _ => {
+                            // Any other command is not supported by this
+                            // endpoint, return the command code with
+                            // ERROR_UNSUPPORTED_CMD
+                            let response_header = MCTPControlMessageHeader::new_from_buf([
+                                0x00,
+                                header.command_code(),
+                            ]);
+                            len = self
+                                .get_response()
+                                .generate_control_packet_bytes(
+                                    base_header.source_endpoint_id(),
+                                    &Some(&response_header.0[..]),
+                                    &[CompletionCode::ErrorUnsupportedCmd as u8],
+                                    response_buf,
+                                )
+                                .unwrap();
+                        }
                     }
 
                     return Ok(((msg_type, payload), Some(len)));
